@@ -26,10 +26,27 @@ def synchronised(k, seed):
     return _df(rows), {'k': k, 'seed': seed, 'layout': 'synchronised_ceilometers', 'ceilos': names, 'rows': len(rows)}
 
 
+def near_simultaneous(k, seed):
+    """2-3 ceilometers reporting a few hundredths of a second apart on one deck: (time, name) pairs whose *texts* can run into
+    each other when names are digit strings ('-30.5' + '12' == '-30.51' + '2')"""
+    from .scenes import _df
+    rng = random.Random(seed * 41 + k)
+    names = rng.choice([['A', 'B'], ['x', 'y', 'z']])
+    n = rng.choice([20, 40])
+    rows = []
+    for t in range(n):
+        for j, c in enumerate(names):
+            rows.append((c, -(30 * t + 0.5 + 0.01 * j), 1400 + rng.uniform(0, 60), 1))
+    rng.shuffle(rows)
+    return _df(rows), {'k': k, 'seed': seed, 'layout': 'near_simultaneous_ceilometers', 'ceilos': names, 'rows': len(rows)}
+
+
 def check(k, seed):
     rng = random.Random(seed * 37 + k)
     if k % 3 == 1:
         df, desc = synchronised(k, seed)
+    elif k % 6 == 2:
+        df, desc = near_simultaneous(k, seed)
     else:
         df, desc = scene(3 * k + (6 if k % 2 else 0), seed)      # favour multi-ceilometer / coincident layouts
     names = sorted(set(map(str, df['ceilo'])))
@@ -63,6 +80,9 @@ def check(k, seed):
     sh = names[:]
     rng.shuffle(sh)
     maps.append(('permutation', dict(zip(names, sh))))
+    digits = ['12', '2', '1', '21', '121', '0', '00', '5']
+    if len(names) <= len(digits):
+        maps.append(('digit strings that extend each other', dict(zip(names, digits[:len(names)]))))
     for item in maps:
         if item is None:
             continue
@@ -101,7 +121,7 @@ def bounded(run):
         for f in fails[:3]:
             failures.append({'obligation': 'bounded.C16.renaming', 'scene': desc, 'prms': prms, 'what': f,
                              'rerun': f'cd /verif && PYTHONPATH=${{PYVC_REPO_SRC:-/repo/src}}:/verif .venv312/bin/python -m bounded.c16 {k} {run.seed}'})
-    return {'label': 'B (bounded, never counted as proved)', 'bound': f'{n} scenes x 3 bijective renamings x look-back x exclusion lists, seed {run.seed}',
+    return {'label': 'B (bounded, never counted as proved)', 'bound': f'{n} scenes x 4 bijective renamings x look-back x exclusion lists, seed {run.seed}',
             'scenes': n, 'distinct_cases': len(shapes), 'scenes_crashing_in_pipeline (see C08)': crashed,
             'failures': failures[:5], 'n_failures': len(failures)}
 
